@@ -7,6 +7,10 @@ import (
 	"golang.org/x/tools/go/ssa"
 )
 
+// fairnessBound is the number of consecutive synchronisation operations one goroutine may execute
+// while others are runnable before the scheduler forces a switch (only unfair infinite schedules are cut).
+const fairnessBound = 40
+
 type lockState struct {
 	writer  int // thread id, -1 = none
 	readers map[int]int
@@ -98,9 +102,7 @@ func (p *Path) schedPoint(th *Thread, what string) {
 		return
 	}
 	p.schedPoints++
-	if p.preempts >= p.maxPreempt {
-		return
-	}
+	th.syncSince++
 	var others []*Thread
 	for _, t := range p.threads {
 		if t != th && p.enabled(t) {
@@ -110,11 +112,25 @@ func (p *Path) schedPoint(th *Thread, what string) {
 	if len(others) == 0 {
 		return
 	}
+	if th.syncSince > fairnessBound {
+		// fairness: a goroutine that keeps performing synchronisation operations while others are
+		// runnable (a retry/spin loop waiting for them) is eventually descheduled. Not a preemption.
+		th.syncSince = 0
+		t := others[0]
+		t.state = thRunnable
+		t.wake = nil
+		p.cur = t.id
+		return
+	}
+	if p.preempts >= p.maxPreempt {
+		return
+	}
 	i := p.chooseN(len(others)+1, "preempt@"+what)
 	if i == 0 {
 		return
 	}
 	p.preempts++
+	th.syncSince = 0
 	t := others[i-1]
 	t.state = thRunnable
 	t.wake = nil
